@@ -3,7 +3,7 @@
 copies /tmp/mut/<Cxx>/out/{change<k>.diff,demo<k>.py,meta<k>.json} (+ support dirs) into seeded/<Cxx>-<k>/"""
 import json, os, shutil, sys
 P, K, det, note = sys.argv[1], sys.argv[2], sys.argv[3], sys.argv[4]
-src = f"/tmp/mut/{P}/out"
+src = f"/tmp/mut/{P}/" + os.environ.get("OUTDIR", "out")
 dst = os.path.join(os.path.dirname(os.path.dirname(os.path.abspath(__file__))), "seeded", f"{P}-{K}")
 os.makedirs(dst, exist_ok=True)
 shutil.copy(f"{src}/change{K}.diff", f"{dst}/patch.diff")
@@ -13,7 +13,7 @@ for extra in os.listdir(src):
     if os.path.isdir(p) and not extra.startswith(".") and extra != "__pycache__":
         shutil.copytree(p, os.path.join(dst, extra), dirs_exist_ok=True,
                         ignore=shutil.ignore_patterns("__pycache__"))
-    elif extra.endswith(".py") and not extra.startswith("demo") and extra != "notes_replay.py":
+    elif extra.endswith(".py") and not (extra.startswith("demo") and extra[4:5].isdigit()) and extra != "notes_replay.py":
         shutil.copy(p, dst)
 m = json.load(open(f"{src}/meta{K}.json"))
 suite = None
